@@ -7,55 +7,6 @@ import (
 	"google.golang.org/grpc/metadata"
 )
 
-func vb2i(b bool) int {
-	r := 0
-	if b {
-		r = 1
-	}
-	return r
-}
-
-// refTimeout is the gRPC wire specification of the grpc-timeout header:
-// 1 to 8 ASCII digits followed by one unit character; the duration saturates
-// at the largest representable value.
-func refTimeout(s string) (wellFormed bool, d time.Duration, zero bool) {
-	n := len(s)
-	if n < 2 || n > 9 {
-		return false, 0, false
-	}
-	var unit time.Duration
-	switch s[n-1] {
-	case 'H':
-		unit = time.Hour
-	case 'M':
-		unit = time.Minute
-	case 'S':
-		unit = time.Second
-	case 'm':
-		unit = time.Millisecond
-	case 'u':
-		unit = time.Microsecond
-	case 'n':
-		unit = time.Nanosecond
-	default:
-		return false, 0, false
-	}
-	var v int64
-	bad := 0
-	for i := 0; i < n-1; i++ {
-		c := s[i]
-		bad |= vb2i(c < '0') | vb2i(c > '9')
-		v = v*10 + int64(c-'0')
-	}
-	if bad != 0 {
-		return false, 0, false
-	}
-	if v > math.MaxInt64/int64(unit) {
-		return true, time.Duration(math.MaxInt64), false
-	}
-	return true, time.Duration(v) * unit, v == 0
-}
-
 // S-TIMEOUT (C18): timeoutFromHeaders against the specification, for every
 // header value up to maxlen bytes, absent / single / repeated headers.
 func verifH_Timeout() {
